@@ -14,9 +14,11 @@ def proof_stage(v, prop, extra_obligations=0, extra_discharged=0):
     from .. import translate
     gen_errors = translate.regenerate_all()
     problems = C.coq_lint()
-    dep = {"C18": "freeze", "C17": "seed", "C08": "api", "C04": "uid", "C06": "filter", "C15": "subfaces"}.get(prop)
-    if dep and dep in gen_errors:
-        problems = problems + [f"translator {dep} failed (fail-closed): {gen_errors[dep]}"]
+    deps = {"C18": ["freeze"], "C17": ["seed"], "C08": ["api"], "C04": ["uid"], "C06": ["filter", "stats"],
+            "C15": ["subfaces"]}.get(prop, [])
+    for dep in deps:
+        if dep in gen_errors:
+            problems = problems + [f"translator {dep} failed (fail-closed): {gen_errors[dep]}"]
     pr = C.check_props(prop)
     ok = pr["ok"] and not problems
     v.coverage.update({
